@@ -740,7 +740,7 @@ def run(tier, seed):
                 run_case(chk, c["lib"], c["page"], c.get("mode", "django"), c.get("api", "template"), "corpus", terms, cases)
     # ---- the layout pattern (re-entrant root runs with pending entries), both modes ----
     for i, (lib, page, kind) in enumerate(gen_reentrant(thorough)):
-        for mode in (both if thorough or i % 3 == 0 else ("isolated",)):
+        for mode in (both if i % 3 == 0 else ("isolated",) if i % 3 == 1 or not thorough else ("django",)):
             run_case(chk, lib, page, mode, "template", kind, terms, cases)
     # ---- exhaustive shapes ----
     for i, (lib, page, kind) in enumerate(gen_exhaustive(thorough)):
